@@ -219,3 +219,484 @@ Lemma CL_cong_Power_l a a' b : refines a a' -> refines (Power a b) (Power a' b).
 Proof. intro H. apply CL_cong_Power; [exact H | apply CL_refines_refl]. Qed.
 Lemma CL_cong_Power_r a b b' : refines b b' -> refines (Power a b) (Power a b').
 Proof. intro H. apply CL_cong_Power; [apply CL_refines_refl | exact H]. Qed.
+
+(** ** The driver: an equation for [step_named] with the inner fixpoint named *)
+
+Fixpoint CL_step_list (l : list E) : option (label (T:=R) * list E) :=
+  match l with
+  | [] => None
+  | x :: r =>
+      match step_named RInst x with
+      | Some (lab, x') => Some (lab, x' :: r)
+      | None =>
+          match CL_step_list r with
+          | Some (lab, r') => Some (lab, x :: r')
+          | None => None
+          end
+      end
+  end.
+
+Definition CL_unary_step (e a : E) (rebuild : E -> E) : option (label (T:=R) * E) :=
+  match step_named RInst a with
+  | Some (lab, a') => Some (lab, rebuild a')
+  | None => rules_at RInst e
+  end.
+
+Definition CL_binary_step (e a b : E) (rebuild : E -> E -> E) : option (label (T:=R) * E) :=
+  match step_named RInst a with
+  | Some (lab, a') => Some (lab, rebuild a' b)
+  | None =>
+      match step_named RInst b with
+      | Some (lab, b') => Some (lab, rebuild a b')
+      | None => rules_at RInst e
+      end
+  end.
+
+Lemma CL_step_named_eq (e : E) :
+  step_named RInst e =
+  match consolidate RInst e with
+  | Some c => Some (LConsolidate e, c)
+  | None =>
+      match e with
+      | Const _ | Var _ => None
+      | Add l => match CL_step_list l with
+                 | Some (lab, l') => Some (lab, Add l')
+                 | None => rules_at RInst e
+                 end
+      | Mul l => match CL_step_list l with
+                 | Some (lab, l') => Some (lab, Mul l')
+                 | None => rules_at RInst e
+                 end
+      | Minus a b => CL_binary_step e a b Minus
+      | Divide a b => CL_binary_step e a b Divide
+      | Power a b => CL_binary_step e a b Power
+      | Neg a => CL_unary_step e a Neg
+      | Recip a => CL_unary_step e a Recip
+      | Sin a => CL_unary_step e a Sin
+      | Cos a => CL_unary_step e a Cos
+      | NthPow a n => CL_unary_step e a (fun x => NthPow x n)
+      | NthRoot a n => CL_unary_step e a (fun x => NthRoot x n)
+      | Exp a b => CL_unary_step e a (fun x => Exp x b)
+      | Log a b => CL_unary_step e a (fun x => Log x b)
+      end
+  end.
+Proof. destruct e; reflexivity. Qed.
+
+Lemma CL_first_reducer (rs : list (rule (T:=R))) (e : E) nm e' :
+  first_reducer rs e = Some (nm, e') -> exists f, In (nm, f) rs /\ f e = Some e'.
+Proof.
+  induction rs as [|[nm0 f0] rs IH]; cbn [first_reducer]; intro H.
+  - discriminate.
+  - destruct (f0 e) as [e0|] eqn:Hf.
+    + inversion H; subst. exists f0. split; [left; reflexivity | exact Hf].
+    + destruct (IH H) as (f & Hin & Hfe). exists f. split; [right; exact Hin | exact Hfe].
+Qed.
+
+Lemma CL_reducers_of_all (e : E) nm f :
+  In (nm, f) (reducers_of RInst e) -> In (nm, f) (all_rules RInst).
+Proof.
+  intro H. unfold all_rules. rewrite !in_app_iff.
+  destruct e; cbn [reducers_of] in H; try (destruct H; fail); tauto.
+Qed.
+
+Lemma CL_good_trace_app (a b : list (label (T:=R))) :
+  good_trace (a ++ b) = good_trace a && good_trace b.
+Proof. unfold good_trace. apply forallb_app. Qed.
+
+Lemma CL_good_trace_cons (lab : label (T:=R)) tr :
+  good_trace (lab :: tr) = true <-> bad_label lab = false /\ good_trace tr = true.
+Proof.
+  unfold good_trace. cbn [forallb]. rewrite andb_true_iff, negb_true_iff. tauto.
+Qed.
+
+(** ** The normal-form pass: pure facts about the partition and the assembly *)
+
+Lemma CL_simplified_add (l : list E) : refines (Add l) (simplified_add RInst l).
+Proof.
+  destruct l as [|t [|t2 l]]; cbn [simplified_add]; try apply CL_refines_refl.
+  - intros _. split; [exact I|]. split; [apply incl_refl|]. intros rho _. split; [exact I|]. reflexivity.
+  - intros [Hw _]. split; [exact Hw|]. split; [cbn [vars flat_map]; rewrite app_nil_r; apply incl_refl|].
+    intros rho [Hd _]. split; [exact Hd|]. cbn [denote fold_right]. ring.
+Qed.
+
+Lemma CL_simplified_multiply (l : list E) : refines (Mul l) (simplified_multiply RInst l).
+Proof.
+  destruct l as [|t [|t2 l]]; cbn [simplified_multiply]; try apply CL_refines_refl.
+  - intros _. split; [exact I|]. split; [apply incl_refl|]. intros rho _. split; [exact I|]. reflexivity.
+  - intros [Hw _]. split; [exact Hw|]. split; [cbn [vars flat_map]; rewrite app_nil_r; apply incl_refl|].
+    intros rho [Hd _]. split; [exact Hd|]. cbn [denote fold_right]. ring.
+Qed.
+
+Lemma CL_minus_nil_r (a : E) : refines (Minus a (Add [])) a.
+Proof.
+  intros [Hw _]. split; [exact Hw|]. split; [cbn [vars flat_map]; rewrite app_nil_r; apply incl_refl|].
+  intros rho [Hd _]. split; [exact Hd|]. cbn [denote fold_right]. ring.
+Qed.
+
+Lemma CL_minus_nil_l (b : E) : refines (Minus (Add []) b) (Neg b).
+Proof.
+  intros [_ Hw]. split; [exact Hw|]. split; [apply incl_refl|].
+  intros rho [_ Hd]. split; [exact Hd|]. cbn [denote fold_right]. ring.
+Qed.
+
+Lemma CL_divide_nil_r (a : E) : refines (Divide a (Mul [])) a.
+Proof.
+  intros [Hw _]. split; [exact Hw|]. split; [cbn [vars flat_map]; rewrite app_nil_r; apply incl_refl|].
+  intros rho [Hd _]. split; [exact Hd|]. cbn [denote fold_right]. field.
+Qed.
+
+Lemma CL_divide_nil_l (b : E) : refines (Divide (Mul []) b) (Recip b).
+Proof.
+  intros [_ Hw]. split; [exact Hw|]. split; [apply incl_refl|].
+  intros rho (_ & Hd & Hnz). split; [split; assumption|]. cbn [denote fold_right]. field. exact Hnz.
+Qed.
+
+Lemma CL_assemble_add (ti tii : list E) :
+  refines (Minus (Add ti) (Add tii)) (assemble_add RInst ti tii).
+Proof.
+  destruct ti as [|t ti]; destruct tii as [|u tii]; cbn [assemble_add].
+  - intros _. split; [exact I|]. split; [apply incl_refl|]. intros rho _. split; [exact I|].
+    cbn [denote fold_right]. simpl. ring.
+  - eapply CL_refines_trans; [apply CL_minus_nil_l|]. apply CL_cong_Neg, CL_simplified_add.
+  - eapply CL_refines_trans; [apply CL_minus_nil_r|]. apply CL_simplified_add.
+  - apply CL_cong_Minus; apply CL_simplified_add.
+Qed.
+
+Lemma CL_assemble_multiply (nu de : list E) :
+  refines (Divide (Mul nu) (Mul de)) (assemble_multiply RInst nu de).
+Proof.
+  destruct nu as [|t nu]; destruct de as [|u de]; cbn [assemble_multiply].
+  - intros _. split; [exact I|]. split; [apply incl_refl|]. intros rho _. split; [exact I|].
+    cbn [denote fold_right]. simpl. field.
+  - eapply CL_refines_trans; [apply CL_divide_nil_l|]. apply CL_cong_Recip, CL_simplified_multiply.
+  - eapply CL_refines_trans; [apply CL_divide_nil_r|]. apply CL_simplified_multiply.
+  - apply CL_cong_Divide; apply CL_simplified_multiply.
+Qed.
+
+Lemma CL_is_Neg_inv (x : E) : is_Neg x = true -> x = Neg (inner_of x).
+Proof. destruct x; cbn [is_Neg]; intro H; try discriminate; reflexivity. Qed.
+Lemma CL_is_Recip_inv (x : E) : is_Recip x = true -> x = Recip (inner_of x).
+Proof. destruct x; cbn [is_Recip]; intro H; try discriminate; reflexivity. Qed.
+
+(** the partition of a sum into negations and others: value, domain, variables *)
+Lemma CL_partition_add (l : list E) :
+  refines (Add l)
+    (Minus (Add (filter (fun x => negb (is_Neg x)) l)) (Add (map inner_of (filter is_Neg l)))).
+Proof.
+  induction l as [|x l IH].
+  - cbn [filter map]. intros _. split; [split; exact I|]. split; [apply incl_refl|].
+    intros rho _. split; [split; exact I|]. cbn [denote fold_right]. ring.
+  - intros Hwf. apply CL_wf_Add in Hwf. inversion Hwf as [|? ? Hwx Hwl]; subst.
+    apply CL_wf_Add in Hwl. destruct (IH Hwl) as ((W1 & W2) & Iv & D).
+    apply CL_wf_Add in W1. apply CL_wf_Add in W2.
+    cbn [filter]. destruct (is_Neg x) eqn:Hn; cbn [negb map].
+    + destruct x as [| | | | | | |u| | | | | | |]; try discriminate Hn. cbn [wf inner_of] in Hwx |- *.
+      split; [split; [apply CL_wf_Add; assumption | apply CL_wf_Add; constructor; assumption]|].
+      split; [cbn [vars flat_map] in Iv |- *; intros z Hz; specialize (Iv z);
+              rewrite ?in_app_iff in *; tauto|].
+      intros rho Hd. apply CL_dom_Add in Hd. inversion Hd as [|? ? Hdx Hdl]; subst.
+      apply CL_dom_Add in Hdl. destruct (D rho Hdl) as ((D1 & D2) & Dv).
+      apply CL_dom_Add in D1. apply CL_dom_Add in D2. cbn [InDomain] in Hdx.
+      split; [split; [apply CL_dom_Add; assumption | apply CL_dom_Add; constructor; assumption]|].
+      cbn [denote fold_right] in Dv |- *. lra.
+    + split; [split; [apply CL_wf_Add; constructor; assumption | apply CL_wf_Add; assumption]|].
+      split; [cbn [vars flat_map] in Iv |- *; intros z Hz; specialize (Iv z);
+              rewrite ?in_app_iff in *; tauto|].
+      intros rho Hd. apply CL_dom_Add in Hd. inversion Hd as [|? ? Hdx Hdl]; subst.
+      apply CL_dom_Add in Hdl. destruct (D rho Hdl) as ((D1 & D2) & Dv).
+      apply CL_dom_Add in D1. apply CL_dom_Add in D2.
+      split; [split; [apply CL_dom_Add; constructor; assumption | apply CL_dom_Add; assumption]|].
+      cbn [denote fold_right] in Dv |- *. lra.
+Qed.
+
+(** the partition of a product into reciprocals and others; every denominator is non-zero
+    because each [Recip u] is inside its domain *)
+Lemma CL_partition_mul (l : list E) :
+  refines (Mul l)
+    (Divide (Mul (filter (fun x => negb (is_Recip x)) l)) (Mul (map inner_of (filter is_Recip l)))).
+Proof.
+  induction l as [|x l IH].
+  - cbn [filter map]. intros _. split; [split; exact I|]. split; [apply incl_refl|].
+    intros rho _. cbn [InDomain denote fold_right]. split; [repeat split; lra | field].
+  - intros Hwf. apply CL_wf_Mul in Hwf. inversion Hwf as [|? ? Hwx Hwl]; subst.
+    apply CL_wf_Mul in Hwl. destruct (IH Hwl) as ((W1 & W2) & Iv & D).
+    apply CL_wf_Mul in W1. apply CL_wf_Mul in W2.
+    cbn [filter]. destruct (is_Recip x) eqn:Hn; cbn [negb map].
+    + destruct x as [| | | | | | | |u| | | | | |]; try discriminate Hn. cbn [wf inner_of] in Hwx |- *.
+      split; [split; [apply CL_wf_Mul; assumption | apply CL_wf_Mul; constructor; assumption]|].
+      split; [cbn [vars flat_map] in Iv |- *; intros z Hz; specialize (Iv z);
+              rewrite ?in_app_iff in *; tauto|].
+      intros rho Hd. apply CL_dom_Mul in Hd. inversion Hd as [|? ? Hdx Hdl]; subst.
+      apply CL_dom_Mul in Hdl. destruct (D rho Hdl) as ((D1 & D2 & Dnz) & Dv).
+      apply CL_dom_Mul in D1. apply CL_dom_Mul in D2. cbn [InDomain] in Hdx. destruct Hdx as [Hdu Hunz].
+      cbn [denote fold_right] in Dv, Dnz |- *.
+      split; [split; [apply CL_dom_Mul; assumption
+                     | split; [apply CL_dom_Mul; constructor; assumption
+                              | apply Rmult_integral_contrapositive_currified; assumption]]|].
+      rewrite <- Dv. field. split; assumption.
+    + split; [split; [apply CL_wf_Mul; constructor; assumption | apply CL_wf_Mul; assumption]|].
+      split; [cbn [vars flat_map] in Iv |- *; intros z Hz; specialize (Iv z);
+              rewrite ?in_app_iff in *; tauto|].
+      intros rho Hd. apply CL_dom_Mul in Hd. inversion Hd as [|? ? Hdx Hdl]; subst.
+      apply CL_dom_Mul in Hdl. destruct (D rho Hdl) as ((D1 & D2 & Dnz) & Dv).
+      apply CL_dom_Mul in D1. apply CL_dom_Mul in D2.
+      cbn [denote fold_right] in Dv, Dnz |- *.
+      split; [split; [apply CL_dom_Mul; constructor; assumption
+                     | split; [apply CL_dom_Mul; assumption | exact Dnz]]|].
+      rewrite <- Dv. field. exact Dnz.
+Qed.
+
+Lemma CL_omapM_Forall2 {A B} (f : A -> option B) l ys :
+  omapM f l = Some ys -> Forall2 (fun x y => f x = Some y) l ys.
+Proof.
+  revert ys. induction l as [|x l IH]; intros ys H; cbn [omapM] in H.
+  - inversion H. constructor.
+  - destruct (f x) as [y|] eqn:Hf; [|discriminate].
+    destruct (omapM f l) as [ys0|] eqn:Hm; [|discriminate].
+    inversion H; subst. constructor; [exact Hf | apply IH; reflexivity].
+Qed.
+
+(** elementwise refinement of a list normalized term by term, the traces concatenated *)
+Lemma CL_omapM_refines (f : E -> option E) (tr : E -> list (label (T:=R))) (g : E -> E) l ys :
+  (forall x y, f x = Some y -> good_trace (tr x) = true -> refines (g x) y) ->
+  omapM f l = Some ys -> good_trace (flat_map tr l) = true -> Forall2 refines (map g l) ys.
+Proof.
+  intros Hf Hm. apply CL_omapM_Forall2 in Hm.
+  induction Hm as [|x y l ys Hxy Hl IH]; cbn [flat_map map]; intro Hg.
+  - constructor.
+  - rewrite CL_good_trace_app in Hg. apply andb_true_iff in Hg. destruct Hg as [G1 G2].
+    constructor; [apply Hf; assumption | apply IH; exact G2].
+Qed.
+
+Section C.
+  Hypothesis Hrules : C08_rules_sound.
+  Hypothesis Hcons : C08_consolidate_sound.
+
+  (** *** one step *)
+
+  Lemma CL_rules_at_sound (e e' : E) lab :
+    rules_at RInst e = Some (lab, e') -> bad_label lab = false -> refines e e'.
+  Proof.
+    unfold rules_at, apply_reducers. intros H Hbad.
+    destruct (first_reducer (reducers_of RInst e) e) as [[nm e0]|] eqn:Hf; [|discriminate].
+    inversion H; subst lab e0. clear H.
+    destruct (CL_first_reducer _ _ _ _ Hf) as (f & Hin & Hfe).
+    eapply Hrules; [apply (CL_reducers_of_all e); exact Hin | exact Hfe | exact Hbad].
+  Qed.
+
+  Definition CL_step_ok (e : E) : Prop :=
+    forall e' lab, step_named RInst e = Some (lab, e') -> bad_label lab = false -> refines e e'.
+
+  (** the inner [step_list] fixpoint *)
+  Lemma CL_step_list_sound (l : list E) :
+    Forall CL_step_ok l ->
+    forall l' lab, CL_step_list l = Some (lab, l') -> bad_label lab = false -> Forall2 refines l l'.
+  Proof.
+    induction 1 as [|x r Hx Hr IH]; intros l' lab H Hbad; cbn [CL_step_list] in H.
+    - discriminate.
+    - destruct (step_named RInst x) as [[lab0 x']|] eqn:Hs.
+      + inversion H; subst lab0 l'. constructor; [eapply Hx; eassumption | apply CL_Forall2_refl].
+      + destruct (CL_step_list r) as [[lab0 r']|] eqn:Hsl; [|discriminate].
+        inversion H; subst lab0 l'. constructor; [apply CL_refines_refl | eapply IH; [reflexivity | exact Hbad]].
+  Qed.
+
+  Lemma CL_unary_step_sound (e a : E) (rebuild : E -> E) :
+    CL_step_ok a ->
+    (forall a', refines a a' -> refines (rebuild a) (rebuild a')) ->
+    e = rebuild a ->
+    forall e' lab, CL_unary_step e a rebuild = Some (lab, e') -> bad_label lab = false -> refines e e'.
+  Proof.
+    intros Ha Hcong He e' lab H Hbad. unfold CL_unary_step in H.
+    destruct (step_named RInst a) as [[lab0 a']|] eqn:Hs.
+    - inversion H; subst lab0 e'. rewrite He. apply Hcong. eapply Ha; eassumption.
+    - eapply CL_rules_at_sound; eassumption.
+  Qed.
+
+  Lemma CL_binary_step_sound (e a b : E) (rebuild : E -> E -> E) :
+    CL_step_ok a -> CL_step_ok b ->
+    (forall a' b', refines a a' -> refines b b' -> refines (rebuild a b) (rebuild a' b')) ->
+    e = rebuild a b ->
+    forall e' lab, CL_binary_step e a b rebuild = Some (lab, e') -> bad_label lab = false -> refines e e'.
+  Proof.
+    intros Ha Hb Hcong He e' lab H Hbad. unfold CL_binary_step in H.
+    destruct (step_named RInst a) as [[lab0 a']|] eqn:Hsa.
+    - inversion H; subst lab0 e'. rewrite He. apply Hcong; [eapply Ha; eassumption | apply CL_refines_refl].
+    - destruct (step_named RInst b) as [[lab0 b']|] eqn:Hsb.
+      + inversion H; subst lab0 e'. rewrite He. apply Hcong; [apply CL_refines_refl | eapply Hb; eassumption].
+      + eapply CL_rules_at_sound; eassumption.
+  Qed.
+
+  Lemma CL_step_ok_all (e : E) : CL_step_ok e.
+  Proof.
+    induction e as [c|x|l IHl|l IHl|a b IHa IHb|a b IHa IHb|a b IHa IHb|a IHa|a IHa|a IHa|a IHa
+                   |a n IHa|a n IHa|a b IHa|a b IHa] using expr_ind';
+      intros e' lab H Hbad; rewrite CL_step_named_eq in H;
+      (match type of H with
+       | match consolidate RInst ?e0 with _ => _ end = _ =>
+           destruct (consolidate RInst e0) as [c0|] eqn:Hc;
+           [inversion H; subst lab e'; apply Hcons; exact Hc|]
+       end).
+    - discriminate.
+    - discriminate.
+    - destruct (CL_step_list l) as [[lab0 l']|] eqn:Hsl.
+      + inversion H; subst lab0 e'. apply CL_cong_Add. eapply CL_step_list_sound; eassumption.
+      + eapply CL_rules_at_sound; eassumption.
+    - destruct (CL_step_list l) as [[lab0 l']|] eqn:Hsl.
+      + inversion H; subst lab0 e'. apply CL_cong_Mul. eapply CL_step_list_sound; eassumption.
+      + eapply CL_rules_at_sound; eassumption.
+    - eapply (CL_binary_step_sound _ a b Minus); try eassumption; [intros; apply CL_cong_Minus; assumption | reflexivity].
+    - eapply (CL_binary_step_sound _ a b Divide); try eassumption; [intros; apply CL_cong_Divide; assumption | reflexivity].
+    - eapply (CL_binary_step_sound _ a b Power); try eassumption; [intros; apply CL_cong_Power; assumption | reflexivity].
+    - eapply (CL_unary_step_sound _ a Neg); try eassumption; [intros; apply CL_cong_Neg; assumption | reflexivity].
+    - eapply (CL_unary_step_sound _ a Recip); try eassumption; [intros; apply CL_cong_Recip; assumption | reflexivity].
+    - eapply (CL_unary_step_sound _ a Sin); try eassumption; [intros; apply CL_cong_Sin; assumption | reflexivity].
+    - eapply (CL_unary_step_sound _ a Cos); try eassumption; [intros; apply CL_cong_Cos; assumption | reflexivity].
+    - eapply (CL_unary_step_sound _ a (fun x => NthPow x n)); try eassumption;
+        [intros; apply CL_cong_NthPow; assumption | reflexivity].
+    - eapply (CL_unary_step_sound _ a (fun x => NthRoot x n)); try eassumption;
+        [intros; apply CL_cong_NthRoot; assumption | reflexivity].
+    - eapply (CL_unary_step_sound _ a (fun x => Exp x b)); try eassumption;
+        [intros; apply CL_cong_Exp; assumption | reflexivity].
+    - eapply (CL_unary_step_sound _ a (fun x => Log x b)); try eassumption;
+        [intros; apply CL_cong_Log; assumption | reflexivity].
+  Qed.
+
+  Theorem step_sound : C08_step_sound.
+  Proof. intros e e' lab H Hbad. exact (CL_step_ok_all e e' lab H Hbad). Qed.
+
+  (** *** any number of steps *)
+
+  Theorem fully_reduce_sound : C08_fully_reduce_sound.
+  Proof.
+    intro fuel. induction fuel as [|f IH]; intros e Hg; cbn [fully_reduce reduce_trace] in *.
+    - apply CL_refines_refl.
+    - unfold step. destruct (step_named RInst e) as [[lab e']|] eqn:Hs.
+      + apply CL_good_trace_cons in Hg. destruct Hg as [Hbad Hg].
+        eapply CL_refines_trans; [eapply step_sound; eassumption | apply IH; exact Hg].
+      + apply CL_refines_refl.
+  Qed.
+  (** *** the normal-form pass and [_normalize] *)
+
+  Definition CL_nfr_ok (fuel d : nat) : Prop :=
+    forall e e' : E,
+      nfr RInst fuel d e = Some e' -> good_trace (nfr_trace RInst fuel d e) = true -> refines e e'.
+
+  (* t._normalize() for a term t of a sum or product *)
+  Lemma CL_norm_sound fuel d (t y : E) :
+    CL_nfr_ok fuel d ->
+    nfr RInst fuel d (fully_reduce RInst fuel t) = Some y ->
+    good_trace (reduce_trace RInst fuel t ++ nfr_trace RInst fuel d (fully_reduce RInst fuel t)) = true ->
+    refines t y.
+  Proof.
+    intros IH Hn Hg. rewrite CL_good_trace_app in Hg. apply andb_true_iff in Hg. destruct Hg as [G1 G2].
+    eapply CL_refines_trans; [apply fully_reduce_sound; exact G1 | apply IH; assumption].
+  Qed.
+
+  Lemma CL_opt_map1 (f : E -> E) o (e' : E) :
+    opt_map1 f o = Some e' -> exists a', o = Some a' /\ e' = f a'.
+  Proof. destruct o as [a'|]; cbn [opt_map1]; intro H; [|discriminate]. inversion H. eauto. Qed.
+
+  Lemma CL_opt_map2 (f : E -> E -> E) o1 o2 (e' : E) :
+    opt_map2 f o1 o2 = Some e' -> exists a' b', o1 = Some a' /\ o2 = Some b' /\ e' = f a' b'.
+  Proof.
+    destruct o1 as [a'|]; destruct o2 as [b'|]; cbn [opt_map2]; intro H; try discriminate.
+    inversion H. eauto.
+  Qed.
+
+  Lemma CL_nfr_ok_all fuel d : CL_nfr_ok fuel d.
+  Proof.
+    induction d as [|d IH]; intros e e' Hn Hg.
+    - discriminate Hn.
+    - destruct e as [c|x|l|l|a b|a b|a b|a|a|a|a|a n|a n|a b|a b];
+        cbn [nfr nfr_trace] in Hn, Hg.
+      + inversion Hn. apply CL_refines_refl.
+      + inversion Hn. apply CL_refines_refl.
+      + unfold partition_by in Hn, Hg.
+        destruct (omapM (fun t => nfr RInst fuel d (fully_reduce RInst fuel t))
+                    (filter (fun x => negb (is_Neg x)) l)) as [ti|] eqn:H1; [|discriminate].
+        destruct (omapM (fun t => nfr RInst fuel d (fully_reduce RInst fuel (inner_of t)))
+                    (filter is_Neg l)) as [tii|] eqn:H2; [|discriminate].
+        inversion Hn; subst e'. clear Hn.
+        rewrite CL_good_trace_app in Hg. apply andb_true_iff in Hg. destruct Hg as [G1 G2].
+        eapply CL_refines_trans; [apply CL_partition_add|].
+        eapply CL_refines_trans; [|apply CL_assemble_add].
+        apply CL_cong_Minus; apply CL_cong_Add.
+        * rewrite <- (map_id (filter (fun x => negb (is_Neg x)) l)).
+          eapply CL_omapM_refines; [|exact H1|exact G1].
+          intros x y Hx Hgx. cbv beta. eapply CL_norm_sound; eassumption.
+        * eapply CL_omapM_refines; [|exact H2|exact G2].
+          intros x y Hx Hgx. eapply CL_norm_sound; eassumption.
+      + unfold partition_by in Hn, Hg.
+        destruct (omapM (fun t => nfr RInst fuel d (fully_reduce RInst fuel t))
+                    (filter (fun x => negb (is_Recip x)) l)) as [ti|] eqn:H1; [|discriminate].
+        destruct (omapM (fun t => nfr RInst fuel d (fully_reduce RInst fuel (inner_of t)))
+                    (filter is_Recip l)) as [tii|] eqn:H2; [|discriminate].
+        inversion Hn; subst e'. clear Hn.
+        rewrite CL_good_trace_app in Hg. apply andb_true_iff in Hg. destruct Hg as [G1 G2].
+        eapply CL_refines_trans; [apply CL_partition_mul|].
+        eapply CL_refines_trans; [|apply CL_assemble_multiply].
+        apply CL_cong_Divide; apply CL_cong_Mul.
+        * rewrite <- (map_id (filter (fun x => negb (is_Recip x)) l)).
+          eapply CL_omapM_refines; [|exact H1|exact G1].
+          intros x y Hx Hgx. cbv beta. eapply CL_norm_sound; eassumption.
+        * eapply CL_omapM_refines; [|exact H2|exact G2].
+          intros x y Hx Hgx. eapply CL_norm_sound; eassumption.
+      + apply CL_opt_map2 in Hn. destruct Hn as (a' & b' & Ha & Hb & ->).
+        rewrite CL_good_trace_app in Hg. apply andb_true_iff in Hg. destruct Hg as [G1 G2].
+        apply CL_cong_Minus; apply IH; assumption.
+      + apply CL_opt_map2 in Hn. destruct Hn as (a' & b' & Ha & Hb & ->).
+        rewrite CL_good_trace_app in Hg. apply andb_true_iff in Hg. destruct Hg as [G1 G2].
+        apply CL_cong_Divide; apply IH; assumption.
+      + apply CL_opt_map2 in Hn. destruct Hn as (a' & b' & Ha & Hb & ->).
+        rewrite CL_good_trace_app in Hg. apply andb_true_iff in Hg. destruct Hg as [G1 G2].
+        apply CL_cong_Power; apply IH; assumption.
+      + apply CL_opt_map1 in Hn. destruct Hn as (a' & Ha & ->). apply CL_cong_Neg, IH; assumption.
+      + apply CL_opt_map1 in Hn. destruct Hn as (a' & Ha & ->). apply CL_cong_Recip, IH; assumption.
+      + apply CL_opt_map1 in Hn. destruct Hn as (a' & Ha & ->). apply CL_cong_Sin, IH; assumption.
+      + apply CL_opt_map1 in Hn. destruct Hn as (a' & Ha & ->). apply CL_cong_Cos, IH; assumption.
+      + apply CL_opt_map1 in Hn. destruct Hn as (a' & Ha & ->). apply CL_cong_NthPow, IH; assumption.
+      + apply CL_opt_map1 in Hn. destruct Hn as (a' & Ha & ->). apply CL_cong_NthRoot, IH; assumption.
+      + apply CL_opt_map1 in Hn. destruct Hn as (a' & Ha & ->). apply CL_cong_Exp, IH; assumption.
+      + apply CL_opt_map1 in Hn. destruct Hn as (a' & Ha & ->). apply CL_cong_Log, IH; assumption.
+  Qed.
+
+  Theorem nfr_sound : C08_nfr_sound.
+  Proof. intros fuel d e e' Hn Hg. exact (CL_nfr_ok_all fuel d e e' Hn Hg). Qed.
+
+  Theorem normalize_sound : C08_normalize_sound.
+  Proof.
+    intros fuel d e e' Hn Hg. unfold normalize in Hn. unfold normalize_trace in Hg.
+    eapply CL_norm_sound; [apply CL_nfr_ok_all | exact Hn | exact Hg].
+  Qed.
+End C.
+
+(** ** Non-vacuity: the premises of the four theorems hold on concrete non-trivial trees *)
+
+Example CL_step_nonvacuous :
+  let e : E := Add [Var 1%positive; Sin (Neg (Neg (Var 2%positive)))] in
+  exists lab, step_named RInst e = Some (lab, Add [Var 1%positive; Sin (Var 2%positive)])
+              /\ bad_label lab = false /\ wfR e.
+Proof. cbv zeta. eexists. split; [vm_compute; reflexivity|]. split; [reflexivity | simpl; tauto]. Qed.
+
+Example CL_fully_reduce_nonvacuous :
+  let e : E := Add [Var 1%positive; Sin (Neg (Neg (Var 2%positive)))] in
+  good_trace (reduce_trace RInst 5 e) = true /\
+  fully_reduce RInst 5 e = Add [Var 1%positive; Sin (Var 2%positive)].
+Proof. cbv zeta. split; vm_compute; reflexivity. Qed.
+
+Example CL_nfr_nonvacuous :
+  let e : E := Mul [Add [Var 1%positive; Neg (Var 2%positive)]; Recip (Var 3%positive)] in
+  nfr RInst 5 4 e = Some (Divide (Minus (Var 1%positive) (Var 2%positive)) (Var 3%positive)) /\
+  good_trace (nfr_trace RInst 5 4 e) = true.
+Proof. cbv zeta. split; vm_compute; reflexivity. Qed.
+
+Example CL_normalize_nonvacuous :
+  let e : E := Mul [Add [Var 1%positive; Neg (Neg (Neg (Var 2%positive)))]; Recip (Var 3%positive)] in
+  normalize RInst 5 4 e = Some (Divide (Minus (Var 1%positive) (Var 2%positive)) (Var 3%positive)) /\
+  good_trace (normalize_trace RInst 5 4 e) = true.
+Proof. cbv zeta. split; vm_compute; reflexivity. Qed.
+
+Print Assumptions step_sound.
+Print Assumptions fully_reduce_sound.
+Print Assumptions nfr_sound.
+Print Assumptions normalize_sound.
